@@ -16,6 +16,7 @@ import (
 
 // Obligation is one proof duty: hyps |- goal.
 type Obligation struct {
+	Abstracted []string // auto-abstracted calls on the path (failure needs replay to count)
 	Name   string // unique, stable name: <func>/<kind>/<site>
 	Func   string // function under contract
 	Kind   string // safety-index, safety-slice, requires, ensures, invariant-entry, invariant-preserved, frame, ...
